@@ -13,13 +13,15 @@ import os
 import sys
 
 from vlib import common as C
+from tools import k2v, k2v_mod
 
 PID = "C18"
 UNIT = "mod"
 
 PINNED = [
     "run_once", "loaded_never_runs_again", "no_placeholder_leak", "cycle_is_error", "in_progress_never_reenters",
-    "failed_import_rolls_back",
+    "failed_import_rolls_back", "failed_import_keeps_other_placeholders", "cycle_detected_after_failed_import",
+    "pinned_cleanup_removes_own_placeholder", "compile_error_leaves_nothing",
     "reimport_after_failure_runs_again", "export_visibility", "last_export_wins", "reassign_not_export",
     "resolution_order", "non_local_order", "newest_wildcard_wins", "top_level_export_final",
 ]
@@ -85,6 +87,10 @@ def item_src(it):
         return fn_src("@main", it[1], it[2])
     if k == "main_nc":
         return "@main = 1"
+    if k == "syntax":
+        return ")) this does not compile (("
+    if k == "raw":
+        return it[1].rstrip("\n")
     raise ValueError(it)
 
 
@@ -130,6 +136,8 @@ def item_coq(it):
         return f"DefineMain (MFun {{| fb_mark := {it[1]}; fb_fail := {cb(it[2])} |}})"
     if k == "main_nc":
         return "DefineMain MNotCallable"
+    if k == "syntax":
+        return "SyntaxError"
     raise ValueError(it)
 
 
@@ -302,6 +310,31 @@ def structured_cases(rng):
     add("caught-then-ok", [((R, 1), wrap(0, [("try", 2, None, 400), ("show", ("var", 2)), ("imp", 3, None)])),
                            ((R, 2), wrap(1, [("imp", 3, None), ("fail",)])), ((R, 3), wrap(2, []))], [1, 2, 3])
     add("missing-module", [((R, 1), wrap(0, [("imp", 5, None)]))], [1, 5])
+    # a failing import CAUGHT inside a module that is itself still being imported, followed by an import
+    # cycle leading back to that still-loading module (the failure must remove only its own placeholder);
+    # failure kinds: runtime error / failing @test / failing @main / missing module / compile error;
+    # the catch one level down (in b, imported by a) with the cycle closing on b or on a; two failures
+    kinds = {"runtime": [((R, 2), wrap(1, [("fail",)]))],
+             "test": [((R, 2), wrap(1, [("test", 20, 310, True)]))],
+             "main": [((R, 2), wrap(1, [("main", 311, True)]))],
+             "main-nc": [((R, 2), wrap(1, [("main_nc",)]))],
+             "missing": [],
+             "compile": [((R, 2), wrap(1, [("syntax",)]))],
+             "nested-fail": [((R, 2), wrap(1, [("imp", 5, None), ("export", 10, ("lit", 1))])), ((R, 5), wrap(4, [("fail",)]))]}
+    for kind, bad in kinds.items():
+        add("caught-then-cycle/" + kind,
+            [((R, 1), wrap(0, [("try", 2, None, 400), ("imp", 3, None)]))] + bad + [((R, 3), wrap(2, [("imp", 1, None)]))],
+            [1, 3], limit=2)
+        add("caught-then-cycle-2/" + kind,
+            [((R, 1), wrap(0, [("export", 10, ("lit", 1)), ("imp", 4, None)])),
+             ((R, 4), wrap(3, [("try", 2, None, 403), ("try", 2, 11, 403), ("imp", 3, None)]))] + bad +
+            [((R, 3), wrap(2, [("imp", 1 if kind in ("runtime", "test", "missing") else 4, None)]))],
+            [1, 4], limit=2)
+    # ... and the cycle itself caught, after which the module goes on and loads
+    add("caught-then-cycle-caught", [((R, 1), wrap(0, [("try", 2, None, 400), ("try", 3, None, 400), ("export", 10, ("lit", 1))])),
+                                     ((R, 2), wrap(1, [("fail",)])), ((R, 3), wrap(2, [("imp", 1, None)]))], [1, 3], limit=2)
+    add("compile-error", [((R, 1), wrap(0, [("imp", 2, None)])), ((R, 2), wrap(1, [("syntax",)])),
+                          ((R, 3), wrap(2, [("try", 2, None, 402), ("export", 10, ("lit", 1))]))], [1, 2, 3], limit=3)
     # prelude names and locals shadow files; wildcard order
     add("prelude-shadow", [((R, 7), wrap(0, [("export", 10, ("lit", 1))])),
                            ((R, 1), wrap(1, [("imp", 7, None), ("show", ("var", 7))]))], [1, 7], clean=False)
@@ -336,6 +369,60 @@ def scripted_cases():
                      ("run", False, R, [("try", 1, 11, 500), ("show", ("var", 11))]),
                      ("run", force, R, [("from", 1, [(10, None), (13, None)])])]
             cases.append(("host-scripts", files, [(tests, steps)], {"clean": False}))
+    return cases
+
+
+def raw_cases():
+    """cases written directly as koto source (outside the model's item language; D-predicates only):
+    the failing import is caught at the top level / inside a function called during the import / inside
+    @main (which runs while the module is still loading) / one level down, then an import cycle leads back
+    to the still-loading module.  Markers follow the conventions of the generated modules."""
+    R = ()
+    bad_src = {
+        "runtime": ('print "m:101"\n' + THROW + "\n", True),
+        "test": ('print "m:101"\n@test ta = ||\n  ' + THROW + '\nprint "m:201"\n', False),
+        "main": ('print "m:101"\n@main = ||\n  ' + THROW + '\nprint "m:201"\n', False),
+        "missing": (None, True),
+        "compile": ('print "m:101"\n)) this does not compile ((\n', True),
+    }
+    catch = '  try\n    import mb\n  catch _\n    print "m:{c}"\n'
+    a_variants = {
+        "top": 'print "m:100"\ntry\n  import mb\ncatch _\n  print "m:400"\nimport mc\nprint "m:200"\n',
+        "fn": 'print "m:100"\nf = ||\n' + catch.format(c=400) + 'f()\nimport mc\nprint "m:200"\n',
+        "fn-twice": 'print "m:100"\nf = ||\n' + catch.format(c=400) + 'f()\nf()\nimport mc\nprint "m:200"\n',
+        "main": 'print "m:100"\n@main = ||\n' + catch.format(c=400) + '  import mc\nprint "m:200"\n',
+        "test": 'print "m:100"\n@test ta = ||\n' + catch.format(c=400) + '  import mc\nprint "m:200"\n',
+    }
+    d_src = 'print "m:102"\nimport ma\nprint "m:202"\n'
+    cases = []
+    for kind, (bsrc, _) in bad_src.items():
+        for var, asrc in a_variants.items():
+            files = [((R, 1), [("raw", asrc, {"ok": False})])]
+            files.append(((R, 2), [("raw", bsrc if bsrc is not None else "", {"ok": False})]))
+            files.append(((R, 3), [("raw", d_src, {"ok": False})]))
+            if bsrc is None:
+                files[1] = ((R, 6), [("raw", 'print "m:101"\n', {"ok": True})])      # unrelated file, keeps the indices
+            runs = []
+            expect = []
+            for tests in (True, False):
+                steps = [host_import(False, 1), host_import(False, 3), host_import(False, 1)]
+                runs.append((tests, steps))
+                if var == "test" and not tests:
+                    expect.append([0, 0, 0])          # the catching test never runs: no failure, no cycle
+                else:
+                    expect.append([1, 1, 1])
+            cases.append((f"raw-caught-then-cycle/{var}", files, runs, {"clean": False, "raw": True, "expect": expect}))
+        # one level down: a imports b; b catches the failure (inside a function) and then imports d; d closes the
+        # cycle on a (two levels up) or on b
+        for back in (1, 4):
+            bsrc2 = 'print "m:103"\nf = ||\n' + catch.format(c=403) + 'f()\nimport mc\nprint "m:203"\n'
+            files = [((R, 1), [("raw", 'print "m:100"\nimport md\nprint "m:200"\n', {"ok": False})]),
+                     ((R, 2) if bsrc is not None else (R, 6), [("raw", bsrc or 'print "m:101"\n', {"ok": bsrc is None})]),
+                     ((R, 3), [("raw", f'print "m:102"\nimport {nm(back)}\nprint "m:202"\n', {"ok": False})]),
+                     ((R, 4), [("raw", bsrc2, {"ok": False})])]
+            runs = [(tests, [host_import(False, 1), host_import(False, 4), host_import(False, 1)]) for tests in (True, False)]
+            cases.append((f"raw-caught-then-cycle/nested-{nm(back)}", files, runs,
+                          {"clean": False, "raw": True, "expect": [[1, 1, 1], [1, 1, 1]]}))
     return cases
 
 
@@ -399,6 +486,8 @@ def random_case(rng):
             used.add(p)
             names = pool + ([MAIN] if p[0] else [])
             body = random_items(rng, names, rng.below(6), True, idx)
+            if rng.chance(1, 15):
+                body.insert(rng.below(len(body) + 1), ("syntax",))
             files.append((p, wrap(idx, body)))
             idx += 1
     runs = []
@@ -494,6 +583,7 @@ def gen_cases(tier, seed):
     cases = corpus_cases()
     cases += structured_cases(rng)
     cases += scripted_cases()
+    cases += raw_cases()
     be = bounded_cases()
     if tier == "quick":
         be = [be[i] for i in range(seed % 8, len(be), 8)]
@@ -517,7 +607,7 @@ def harness_case(case):
                                 for s in steps]} for t, steps in runs]}
 
 
-def run_impl(binp, cases, tag):
+def _run_harness(binp, cases, tag, timeout):
     os.makedirs(os.path.join(C.BUILD, "cases"), exist_ok=True)
     cf = os.path.join(C.BUILD, "cases", f"c18-{tag}-{os.getpid()}.jsonl")
     with open(cf, "w") as f:
@@ -528,12 +618,42 @@ def run_impl(binp, cases, tag):
     env = dict(C.ENV)
     env["KH_MOD_SCRATCH"] = scratch
     env["KOTO_REPO"] = os.path.realpath(C.REPO)
-    rc, out = C.sh([binp, cf], timeout=3600, env=env)
+    rc, out = C.sh([binp, cf], timeout=timeout, env=env)
     os.remove(cf)
-    lines = [json.loads(l) for l in out.splitlines() if l.startswith("{")]
-    if rc != 0 or len(lines) != len(cases):
-        return None, f"rc={rc}: {out[-1500:]}"
-    return lines, ""
+    lines = []
+    for l in out.splitlines():
+        if l.startswith("{"):
+            try:
+                lines.append(json.loads(l))
+            except ValueError:
+                break              # a line cut short by the death of the process
+    return lines[:len(cases)], rc, out
+
+
+def run_impl(binp, cases, tag):
+    """runs kh_mod over the cases.  The harness flushes one line per case, so when the process dies
+    (abort, stack overflow, signal) or hangs, the first case without a line is the one that did it:
+    it is re-run alone to confirm, recorded as {"crash": ...}, and the remaining cases still run."""
+    results = [None] * len(cases)
+    start = 0
+    while start < len(cases):
+        lines, rc, out = _run_harness(binp, cases[start:], tag, 3600)
+        for j, l in enumerate(lines):
+            results[start + j] = l
+        k = start + len(lines)
+        if k >= len(cases):
+            break
+        alone, rc2, out2 = _run_harness(binp, [cases[k]], tag + "-alone", 600)
+        if alone:
+            results[k] = alone[0]
+            results[k]["flaky_crash"] = f"the harness died (rc={rc}) on this case in a batch but not alone"
+        else:
+            results[k] = {"crash": f"rc={rc} in the batch, rc={rc2} alone", "tail": out2[-600:]}
+        start = k + 1
+    for i, r in enumerate(results):
+        if r is None:
+            results[i] = {"crash": "no output", "tail": ""}
+    return results, ""
 
 
 def model_terms(cases):
@@ -542,6 +662,8 @@ def model_terms(cases):
     terms = []
     index = []   # (case idx, [run idx...])
     for ci, (origin, files, runs, meta) in enumerate(cases):
+        if meta.get("raw"):
+            continue
         for tests in (True, False):
             ris = [ri for ri, (t, _) in enumerate(runs) if t == tests]
             if not ris:
@@ -579,6 +701,8 @@ def resolve(files, d, n):
 
 def static_ok(body, tests):
     """once the module's top level has run to its end marker: do its tests and @main succeed?"""
+    if body and body[0][0] == "raw":
+        return bool(body[0][2].get("ok"))
     tmap = {}
     main = None
     for it in body:
@@ -601,9 +725,18 @@ def d_predicates(case, impl_runs):
     origin, files, runs, meta = case
     clean = meta.get("clean", False)
     fails = []
-    tops = {f"m:{top_mark(i)}": p for i, (p, b) in enumerate(files)}
-    ends = {f"m:{end_mark(i)}": p for i, (p, b) in enumerate(files)}
-    catchers = {f"m:{400 + i}": p for i, (p, b) in enumerate(files)}
+    tops, ends, catchers = {}, {}, {}
+    for i, (p, b) in enumerate(files):
+        if b and b[0][0] == "raw":
+            tops[f"m:{top_mark(i)}"], ends[f"m:{end_mark(i)}"], catchers[f"m:{400 + i}"] = p, p, p
+            continue
+        if b and b[0][0] == "mark":
+            tops[f"m:{b[0][1]}"] = p
+        if b and b[-1][0] == "mark":
+            ends[f"m:{b[-1][1]}"] = p
+        for it in b:
+            if it[0] == "try":
+                catchers[f"m:{it[3]}"] = p
     bodies = dict(files)
     imports_main = any(it[0] in ("imp", "from", "all", "try") and it[1] == MAIN for _, b in files for it in b) or \
         any(it[0] in ("imp", "from", "all", "try") and it[1] == MAIN
@@ -617,6 +750,13 @@ def d_predicates(case, impl_runs):
                 completed.clear()      # clear_module_cache: dependencies are recompiled and run again
                 continue
             _, force, d, body = step
+            if ist.get("guard"):
+                fails.append(f"D2 run {ri} step {si}: the top level of one module was executed more than 40 times within "
+                             f"one host script (unbounded nested re-execution stopped by the harness guard)")
+            exp = meta.get("expect")
+            if exp is not None and exp[ri][si] is not None and ist["r"] != exp[ri][si]:
+                fails.append(f"D2 run {ri} step {si}: expected outcome class {exp[ri][si]} "
+                             f"(1 = recursive import error, 0 = ok), the runtime returned {ist['r']}")
             entered_here = []
             open_ = []              # modules entered and not yet seen to end / fail (innermost last)
             for line in ist["out"]:
@@ -697,7 +837,7 @@ def on_plain_cycle(files, start):
     def succ(p):
         out = []
         for it in bodies[p]:
-            if it[0] in ("fail", "try", "assign", "export", "all", "from"):
+            if it[0] in ("fail", "try", "assign", "export", "all", "from", "raw", "syntax"):
                 break              # stay conservative: only leading plain imports count
             if it[0] == "imp" and it[2] is None:
                 q = resolve(files, p[0], it[1])
@@ -742,6 +882,16 @@ def known_classes(case):
 
 def run(tier, seed):
     chk = C.Check(PID, tier, seed, "proof")
+    # tie no. 1: the statements of run_import's placeholder protocol, read from vm.rs
+    try:
+        info, _ = k2v_mod.gen_pins(os.path.join(C.COQ, UNIT, "GenModPins.v"), os.path.join(C.BUILD, "gen", "mod.json"))
+        chk.oblige("gen:run_import protocol (k2v_mod: cycle error, reuse iff loaded_from_cache, placeholder before run, "
+                   "run/tests/@main order, cleanup of the error branch, exports restored on both outcomes)", True)
+        if info["failure_cleanup"] != "CleanupRemoveOwn":
+            chk.log(f"run_import's error branch now does: {info['failure_cleanup']} (the model follows it)")
+    except k2v.GenError as e:
+        chk.oblige("gen:run_import protocol (k2v_mod)", False, str(e))
+        chk.log(f"translator failed: {e}")
     ok, log = C.coq_build(UNIT, ["ModRun.vo"])
     model_ok = ok
     if not ok:
@@ -768,16 +918,16 @@ def run(tier, seed):
         return chk.finish("n/a")
     cases = gen_cases(tier, seed)
     impl, err = run_impl(binp, cases, "run")
-    if impl is None:
-        chk.log("harness run failed " + err)
-        chk.violation("harness", {"kind": "obligation", "correspondence": "kh_mod crashed", "log": err}, no_input=True)
-        return chk.finish("n/a")
 
     dist = {}
     d_fail = []
     nsteps = 0
     for i, (case, r) in enumerate(zip(cases, impl)):
         dist[case[0]] = dist.get(case[0], 0) + 1
+        if "crash" in r:
+            d_fail.append((i, [f"the process running this module graph died or hung ({r['crash']}): cycles must be reported "
+                               f"as errors and a module's top level runs once -- {r.get('tail', '')[-300:]}"]))
+            continue
         if "panic" in r:
             d_fail.append((i, [f"the runtime panicked: {r['panic']} at {r.get('at')}"]))
             continue
@@ -801,7 +951,7 @@ def run(tier, seed):
             fuel_out = 0
             outside = 0
             for ci, ri, v in model_results(index, vals):
-                if "panic" in impl[ci]:
+                if "panic" in impl[ci] or "crash" in impl[ci]:
                     continue
                 msteps = [decode_step(x) for x in v]
                 isteps = impl[ci]["runs"][ri]
@@ -886,9 +1036,12 @@ def run(tier, seed):
     return chk.finish(
         rule="module graphs (<= 8 files) x histories of host scripts on one runtime: committed corpus + structured families "
              "(chain, diamond, cycles 1-3, file/dir modules, failing before/after nested import, failing test/@main, caught "
-             "failures, shadowing, wildcard order) under every (sampled) import order x run_import_tests x "
-             "export_top_level_ids + bounded-exhaustive two-module graphs over a 7-item menu + seeded random graphs/histories; "
-             "non-trivial = at least two module files",
+             "failures, caught failure inside a still-loading module followed by a cycle back to it x failure kinds "
+             "runtime/test/@main/missing/compile error x catch at top level / one level down, compile errors, "
+             "shadowing, wildcard order) under every (sampled) import order x run_import_tests x "
+             "export_top_level_ids + bounded-exhaustive two-module graphs over a 7-item menu + raw-source families (catch inside a function / @main / @test called during the "
+             "import; D-predicates only) + seeded random graphs/histories; a harness process that dies or hangs is attributed "
+             "to its case and reported as an input violation; non-trivial = at least two module files",
         explanation="theorems over the run_import model for all graphs and histories; exact model-vs-implementation equality of "
                     "per-step error class / stdout / exports; C18's clauses evaluated directly on the implementation's output",
         trusted_base=tb,
@@ -908,14 +1061,11 @@ def replay(path, args):
         print(blog[-2000:])
         return 3
     impl, err = run_impl(binp, [case], "replay")
-    if impl is None:
-        print(err)
-        return 3
     r = impl[0]
     for p, b in case[1]:
         print(f"--- {path_str(p)}\n{body_src(b)}", end="")
     print(json.dumps(r, indent=1))
-    if "panic" in r:
+    if "panic" in r or "crash" in r:
         print(f"VIOLATION property={PID} replay={path}")
         return 1
     fails = d_predicates(case, r["runs"])
@@ -924,7 +1074,7 @@ def replay(path, args):
     if fails:
         print(f"VIOLATION property={PID} replay={path}")
         return 1
-    if data.get("kind") == "obligation":
+    if data.get("kind") == "obligation" and not case[3].get("raw"):
         ok, _ = C.coq_build(UNIT, ["ModRun.vo"])
         terms, index = model_terms([case])
         vals = C.coq_eval(UNIT, HEADER, terms, tag="c18r")
